@@ -1,7 +1,7 @@
 #!/bin/bash
 # tools/try_mutant.sh PATCH PROP [tier]  : apply PATCH to /repo, run ./check PROP, undo the patch.
 set -u
-PATCH="$1"; PROP="$2"; TIER="${3:-quick}"
+PATCH="$(readlink -f "$1")"; PROP="$2"; TIER="${3:-quick}"
 cd /verif
 git -C /repo apply "$PATCH" || { echo "patch does not apply"; exit 2; }
 ./check "$PROP" --tier "$TIER"; rc=$?
